@@ -29,8 +29,8 @@ type c12Case struct {
 	RootName string    `json:"root"`
 }
 
-var c12DirNames = []string{"License", "Header", "Supplement", "MIT", "Apache-2.0", "a", "b.c", "xtxt", "notes.txt", "v 1", "ünï"}
-var c12FileNames = []string{"license.txt", "a.txt", "header.TXT", "READMEtxt", "notes.md", "LICENSE", "b.txt", "x.txt.bak", "c.txt", ".txt", "txt"}
+var c12DirNames = []string{"License", "Header", "Supplement", "MIT", "Apache-2.0", "a", "b.c", "xtxt", "notes.txt", "v 1", "ünï", "Licen%E7a"}
+var c12FileNames = []string{"license.txt", "a.txt", "header.TXT", "READMEtxt", "notes.md", "LICENSE", "b.txt", "x.txt.bak", "c.txt", ".txt", "txt", "licen%E7a.txt", "%FF%FE.txt"}
 var c12RootNames = []string{"root", "corpus.d", "rtxt", "r.o.o.t", "assets"}
 var c12Spellings = []string{"abs", "abs/", "abs//", "abs/.", "rel", "rel/", "./rel", "./rel/", "../parent/rel", "dot", "rel/./", "abs/../root", "./parent/rel"}
 
@@ -75,6 +75,24 @@ func c12Gen(t *rapid.T) interface{} {
 	return c
 }
 
+// c12Decode turns %XX in a generated name into the byte XX: file names on Linux are arbitrary bytes (Latin-1 names
+// are not valid UTF-8), but a case must survive its JSON encoding, which cannot carry such bytes in a string.
+func c12Decode(s string) string {
+	var sb strings.Builder
+	for i := 0; i < len(s); i++ {
+		if s[i] == '%' && i+2 < len(s)+0 && i+2 <= len(s)-1 {
+			var v int
+			if _, err := fmt.Sscanf(s[i+1:i+3], "%02X", &v); err == nil {
+				sb.WriteByte(byte(v))
+				i += 2
+				continue
+			}
+		}
+		sb.WriteByte(s[i])
+	}
+	return sb.String()
+}
+
 var c12Counter int
 
 func c12Check(ci interface{}) lib.Outcome {
@@ -104,6 +122,11 @@ func c12Check(ci interface{}) lib.Outcome {
 		if len(f.Path) == 0 || len(f.Path) > 6 {
 			return lib.Outcome{Skip: "malformed"}
 		}
+		dec := make([]string, len(f.Path))
+		for i, comp := range f.Path {
+			dec[i] = c12Decode(comp)
+		}
+		f.Path = dec
 		ok := true
 		for _, comp := range f.Path {
 			if comp == "" || comp == "." || comp == ".." || strings.ContainsAny(comp, "/\x00") {
